@@ -1,0 +1,24 @@
+//go:build verif
+
+package mp4
+
+// Property C01, per box type: the decoder consumes, chunk for chunk, what the encoder writes for the decoded structure.
+// Readers and writers carry the abstract trace ghost(x).tr of the chunks read / written (see verif_contracts_c03.go);
+// skipped bytes on the reading side and zero bytes on the writing side are the same chunk chU(0, n) (the don't-care bytes:
+// reserved and pre_defined fields). For a box type T the body trace bodyTr_T(b, t) is ONE specification function; the
+// slice-reader decoder is proved to read exactly bodyTr_T(result, t0) and EncodeSW to write exactly bodyTr_T(b, header(t0)).
+// Together with C02 (the size field is Size(), which is the number of bytes written) this is decode->encode identity outside
+// the don't-care bytes for that box type.
+
+//@ spec mfhdBody(b *MfhdBox, t uint64) uint64 = trApp(trApp(t, chU(32, vf(b.Version, b.Flags))), chU(32, b.SequenceNumber))
+//@ func DecodeMfhdSR
+//@   ensures[C01] result1 == nil && sr.(*bits.FixedSliceReader).err == nil ==> ghost(sr).tr == mfhdBody(result0.(*MfhdBox), old(ghost(sr).tr))
+//@ func (*MfhdBox).EncodeSW
+//@   ensures[C01] result == nil && sw.(*bits.FixedSliceWriter).accError == nil ==> ghost(sw).tr == mfhdBody(m, trHdr(old(ghost(sw).tr), uint32(m.Size()), m.Type()))
+
+//@ spec tfhdOpt32(c bool, v uint32, t uint64) uint64 = ite(c, trApp(t, chU(32, v)), t)
+//@ spec tfhdBody(b *TfhdBox, t uint64) uint64 = tfhdOpt32(b.HasDefaultSampleFlags(), b.DefaultSampleFlags, tfhdOpt32(b.HasDefaultSampleSize(), b.DefaultSampleSize, tfhdOpt32(b.HasDefaultSampleDuration(), b.DefaultSampleDuration, tfhdOpt32(b.HasSampleDescriptionIndex(), b.SampleDescriptionIndex, ite(b.HasBaseDataOffset(), trApp(trApp(trApp(t, chU(32, vf(b.Version, b.Flags))), chU(32, b.TrackID)), chU(64, b.BaseDataOffset)), trApp(trApp(t, chU(32, vf(b.Version, b.Flags))), chU(32, b.TrackID)))))))
+//@ func DecodeTfhdSR
+//@   ensures[C01] result1 == nil && sr.(*bits.FixedSliceReader).err == nil ==> ghost(sr).tr == tfhdBody(result0.(*TfhdBox), old(ghost(sr).tr))
+//@ func (*TfhdBox).EncodeSW
+//@   ensures[C01] result == nil && sw.(*bits.FixedSliceWriter).accError == nil ==> ghost(sw).tr == tfhdBody(t, trHdr(old(ghost(sw).tr), uint32(t.Size()), t.Type()))
